@@ -1496,7 +1496,7 @@ def to_model_request(base_world, steps, cfg):
     msteps = []
     for s in steps:
         m = {"op": "transform" if s["op"] == "inplace" else s["op"], "src": s["src"], "rejected": not s["status"] == "ok"}
-        if s["op"] in ("transform", "inplace"):
+        if s["op"] in ("transform", "inplace", "inplace_on"):
             vs = []
             for v in s["visitors"]:
                 v2 = {k: v[k] for k in v if k not in ("wrap_ids",)}
@@ -1600,6 +1600,112 @@ def nested_input_probes(ctx, want=2):
     ctx.stat("probe:input-fields-of-a-clone:sources=%d" % len(out))
     if len(out) < want:
         ctx.notes.append("probe input-fields-of-a-clone: only %d of %d sources satisfy the precondition" % (len(out), want))
+    return out
+
+
+# --- named probe: IN-PLACE visitor on an EARLIER result while later schemas exist (deterministic: consumes no ctx.rng) -----------
+# Props/C14_inplace.lean (`history_inplace_closed_framed`): the step writes objects of the result it works on only; the source,
+# a sibling clone, a clone OF that result and an extension OF that result — all created before the step — stay as they are.
+LATE_INPLACE_SEEDS = [(2, 4), (2, 6), (3, 2), (3, 5)]
+
+
+def _late_inplace_visitors(r1, which):
+    from py_gql.schema import EnumType, InputObjectType, InterfaceType, ObjectType
+    if which == "camel":
+        return [{"k": "camel", "table": camel_table(r1)}]
+    roots = {t.name for t in (r1.query_type, r1.mutation_type, r1.subscription_type) if t is not None}
+    user = [n for n, t in r1.types.items() if not n.startswith("__") and n not in roots
+            and isinstance(t, (ObjectType, InterfaceType, EnumType, InputObjectType))]
+    comp = [t for n, t in r1.types.items() if not n.startswith("__") and isinstance(t, (ObjectType, InterfaceType)) and len(t.fields) > 1]
+    return [{"k": "visibility", "types": sorted(user)[:1], "dirs": [],
+             "fields": [[comp[0].name, comp[0].fields[-1].name]] if comp else [], "inputs": []}]
+
+
+def late_inplace_cases(ctx, cfg, only=None, fail=None):
+    """[(model request, canonical world of the live objects, record, closedness verdicts)] + direct oracle."""
+    fail = fail or ctx.fail
+    import random
+    from py_gql.exc import ExtensionError, SchemaError, SDLError
+    from py_gql.schema.transforms import transform_schema
+    from py_gql.sdl import extend_schema
+    out = []
+    for size, seed in ([only[:2]] if only else LATE_INPLACE_SEEDS[:ctx.n(2, 4)]):
+        for which in ((only[2],) if only else ("camel", "visibility")):
+            if not only and ctx.time_left() < 4:
+                ctx.notes.append("probe inplace-on-earlier-result skipped (time)")
+                return out
+            funcs = W.Funcs()
+            record = {"seed": seed, "size": size, "probe": "inplace-on-earlier-result", "which": which, "steps": []}
+            try:
+                desc, sdl, source = W.build_source(random.Random(seed), size, funcs)
+                dumper = W.Dumper()
+                base_world = W.canon(dumper.dump([source]))
+                W.use_schema(source)
+                v1 = {"k": "camel", "table": camel_table(source)}
+                r1 = transform_schema(source, make_visitor(v1, funcs))
+                r2 = source.clone()
+                r3 = transform_schema(r1)
+                ext = {"new_types": [{"name": "C14Late", "fields": [{"name": "z", "ty": {"k": "named", "n": "Int"}, "args": []}]}],
+                       "fields": {}, "input_fields": {}, "members": {}, "values": {}, "new_dirs": []}
+                r4 = extend_schema(r1, ext_sdl(ext, r1))
+                steps = [{"op": "transform", "src": 0, "visitors": [v1], "status": "ok"},
+                         {"op": "clone", "src": 0, "status": "ok"},
+                         {"op": "transform", "src": 1, "visitors": [], "status": "ok"},
+                         {"op": "extend", "src": 1, "ext": ext, "status": "ok"}]
+                schemas = [source, r1, r2, r3, r4]
+                for x in schemas:
+                    W.use_schema(x)
+                before = {k: dumper.dump([schemas[k]]) for k in (0, 2, 3, 4)}
+                vs = _late_inplace_visitors(r1, which)
+                cur = r1
+                for v in vs:
+                    cur = make_visitor(v, funcs).on_schema(cur)
+                if cur is not r1:
+                    fail("step-raises:inplace-on-earlier-result:NotInPlace", "on_schema returned another schema object", record)
+                    continue
+                steps.append({"op": "inplace_on", "src": 1, "visitors": vs, "status": "ok"})
+            except (SchemaError, SDLError, ExtensionError) as e:
+                ctx.notes.append("probe inplace-on-earlier-result: %s: %s" % (type(e).__name__, e))
+                continue
+            except Exception as e:  # noqa
+                fail("step-raises:inplace-on-earlier-result:%s" % type(e).__name__,
+                         "clone / transform / extend / in-place visitor on an earlier result raised %r" % e, record)
+                continue
+            record["steps"] = steps
+            ctx.count()
+            ctx.nontrivial(("late-inplace", seed, size, which))
+            ctx.stat("probe:inplace-on-earlier-result:%s" % which)
+            names = {0: "source", 2: "sibling-clone", 3: "clone-of-it", 4: "extension-of-it"}
+            for k in (0, 2, 3, 4):
+                after = dumper.dump([schemas[k]])
+                if after != before[k]:
+                    d = W.first_diff(before[k], after)
+                    m = re.search(r"\.objs\.(\d+)\.(\w+)", d or "")
+                    kind = "object-graph"
+                    if m:
+                        o = before[k]["objs"].get(int(m.group(1)), {})
+                        kind = "%s.%s" % (o.get("o", "?"), m.group(2))
+                    fail("frame:%s-modified:inplace-on-earlier-result:%s" % ("source" if k == 0 else "other-schema", kind),
+                             "an in-place %s visitor on a result changed the object graph of the %s (created before the step): %s"
+                             % (which, names[k], d), record)
+            for k, x in enumerate(schemas):
+                bad = [b for b in W.closed_violations(x) if not b.startswith("implementations")]
+                if bad:
+                    fail("closed:inplace-on-earlier-result:%s" % (names.get(k, "the-result-worked-on")),
+                             "after an in-place %s visitor on an earlier result a reference is not the registered object: %s" % (which, bad[0]),
+                             record)
+            if cfg is not None and ctx.model_ok:
+                raw = dumper.dump(schemas)
+                impl = W.canon(raw)
+                pyc = [not [b for b in W.closed_violations(x) if not b.startswith("implementations")] for x in schemas]
+                req = to_model_request(base_world, steps, cfg)
+                order0 = [[n for n, _ in raw["schemas"][0]["types"]], [n for n, _ in raw["schemas"][0]["dirs"]]]
+                sch0 = dict(req["schema"])
+                for wk, k in (("types", 0), ("dirs", 1)):
+                    pos = {n: j for j, n in enumerate(order0[k])}
+                    sch0[wk] = sorted(sch0[wk], key=lambda e: pos.get(e[0], len(pos)))
+                req["schema"] = sch0
+                out.append((req, impl, record, pyc))
     return out
 
 
@@ -1718,6 +1824,25 @@ def run(ctx):
                 ctx.fail("corr:closed-verdict", "closedness verdict of the model (closedB) differs from the identity check on the live objects",
                          {"record": record, "model": ans.get("closed"), "impl": pyc}, kind="correspondence")
     ctx.extra["sequences"] = len(batch)
+    # --- named probe inplace-on-earlier-result (after everything that draws from ctx.rng)
+    late = late_inplace_cases(ctx, cfg)
+    if late:
+        answers = ctx.driver.ask([b[0] for b in late])
+        for (req, impl, record, pyc), ans in zip(late, answers):
+            ctx.count()
+            if "error" in ans:
+                ctx.fail("corr:model-error:%s" % ans["error"], "model could not run the sequence", {"record": record, "answer": ans},
+                         kind="correspondence")
+                continue
+            model = W.canon({"objs": ans["objs"], "schemas": ans["schemas"]})
+            if model != impl:
+                ctx.fail("corr:heap-differs:inplace-on-earlier-result:%s" % record["which"],
+                         "object graph of model and implementation differ (impl vs model): %s" % W.first_diff(impl, model),
+                         {"record": record}, kind="correspondence")
+            if ans.get("closed") != pyc:
+                ctx.fail("corr:closed-verdict", "closedness verdict of the model (closedB) differs from the identity check on the live objects",
+                         {"record": record, "model": ans.get("closed"), "impl": pyc}, kind="correspondence")
+    ctx.extra["late_inplace_cases"] = len(late)
     # --- correspondence of the resolver REGISTRIES (source.clone() + registrations on the clone) with Registry.lean
     reg_cases = ctx._c14_reg_cases
     if reg_cases and ctx.model_ok:
@@ -1776,6 +1901,13 @@ def replay(ctx, data):
         inp = inp["record"]
     if "seed" not in inp:
         return True
+    if inp.get("probe") == "inplace-on-earlier-result":
+        found = []
+        late_inplace_cases(ctx, None, only=(inp["size"], inp["seed"], inp["which"]),
+                           fail=lambda sig, what, detail=None, kind="property": found.append((sig, what)))
+        for sig, what in found:
+            print("  ", sig, "--", what)
+        return not found
     steps = copy.deepcopy(inp["steps"])
     for s in steps:
         for k in ("status", "failed", "raised"):
